@@ -1541,8 +1541,16 @@ func (e *BinaryExpression) Doc(ctx PrettyContext) prettier.Doc {
 
 		leftPrecedence := e.Left.precedence()
 
+		// A less-than comparison as the left operand of a greater-than comparison
+		// must be parenthesized: `a < b > (c)` is parsed as an invocation with a type argument
+		left, leftIsBinary := e.Left.(*BinaryExpression)
+		isTypeArgumentsLike := leftIsBinary &&
+			left.Operation == OperationLess &&
+			e.Operation == OperationGreater
+
 		if (isLeftAssociative && ownPrecedence > leftPrecedence) ||
-			(isRightAssociative && ownPrecedence >= leftPrecedence) {
+			(isRightAssociative && ownPrecedence >= leftPrecedence) ||
+			isTypeArgumentsLike {
 
 			leftDoc = prettier.WrapParentheses(
 				leftDoc,
